@@ -485,6 +485,11 @@ func literalToExpr(in any) *Expression {
 		return Lit(in)
 	}
 
+	// the empty string is a plain literal, it can be neither a regexp nor a wildcard
+	if s == "" {
+		return Lit(s)
+	}
+
 	// if it has leading and trailing /'s then it probably is a regex.
 	// Note this needs to be checked before the wildcard check as a regex
 	// can contain * and ?.
